@@ -247,3 +247,91 @@ class Conn:
     @property
     def log(self) -> RecordingLogger:
         return self.config._log  # type: ignore
+
+
+# ------------------------------------------------------------------------ scripted apps
+
+
+class Instance:
+    def __init__(self, scope) -> None:
+        self.scope = scope
+        self.received: List[dict] = []
+        self.send_errors: List[tuple] = []  # (step, exception) raised by send()
+        self.sent_ok: List[str] = []
+        self.finished = False
+        self.crashed = False
+        self.step = 0
+
+
+class GatedApp:
+    """Scripted ASGI application.  `steps` is a list of actions executed in order; before step i
+    the app waits for gate i (the harness opens gates one by one, so that client actions and
+    faults can be placed between any two application steps).
+
+    actions: "recv"          receive one message
+             "recv_body"     receive until more_body is false (or a disconnect arrives)
+             "recv_until_disconnect"
+             ("send", msg)   send an ASGI message (exceptions are recorded, the app goes on)
+             "raise" | "return"
+    """
+
+    def __init__(self, ctx: WorkerContext, steps_for, gated: bool = True) -> None:
+        self.ctx = ctx
+        self.steps_for = steps_for  # callable(scope, index) -> list of steps
+        self.gated = gated
+        self.instances: List[Instance] = []
+        self.gates: Dict[int, Any] = {}
+        self.opened = -1
+
+    def gate(self, i: int):
+        if i not in self.gates:
+            self.gates[i] = self.ctx.event_class()
+        return self.gates[i]
+
+    async def __call__(self, scope, receive, send, sync_spawn=None, call_soon=None):
+        inst = Instance(scope)
+        idx = len(self.instances)
+        self.instances.append(inst)
+        steps = self.steps_for(scope, idx)
+        for i, st in enumerate(steps):
+            if self.gated:
+                await self.gate(i).wait()
+            inst.step = i
+            if st == "recv":
+                inst.received.append(await receive())
+            elif st == "recv_body":
+                while True:
+                    m = await receive()
+                    inst.received.append(m)
+                    if m["type"] != "http.request" or not m.get("more_body"):
+                        break
+            elif st == "recv_until_disconnect":
+                while True:
+                    m = await receive()
+                    inst.received.append(m)
+                    if m["type"].endswith("disconnect"):
+                        break
+            elif st == "raise":
+                inst.crashed = True
+                raise RuntimeError("application failure at step %d" % i)
+            elif st == "return":
+                inst.finished = True
+                return
+            else:
+                try:
+                    await send(st[1])
+                    inst.sent_ok.append(st[1]["type"])
+                except Exception as e:  # noqa: BLE001
+                    inst.send_errors.append((i, e))
+        inst.finished = True
+
+
+def open_gates(conn: "Conn", app: GatedApp, upto: int) -> None:
+    """Open gates 0..upto-1 (idempotent) and run to quiescence."""
+
+    async def go():
+        for i in range(upto):
+            await app.gate(i).set()
+
+    conn.sched.spawn(go(), "gates")
+    conn.sched.run()
